@@ -2,6 +2,8 @@ import EdpVerif.Impl.Decode
 import EdpVerif.Impl.TableTie
 import EdpVerif.Lemmas.DecTotal
 import EdpVerif.Lemmas.DistHeader
+import EdpVerif.Lemmas.DecMeter
+import EdpVerif.Generated.Misc
 /-
 C02 — decoding untrusted bytes always returns: no panic, abort, overflow or blow-up.
 The model makes every Rust panic site an explicit outcome (`DErr.panic`), so "never panics" is a theorem and not a
@@ -9,6 +11,7 @@ by-product of totalisation; recursion depth and requested capacities are functio
 -/
 namespace Edp.Props.C02
 open Edp
+set_option linter.unusedSimpArgs false
 
 /-- the nesting-depth guard: beyond `MAX_NESTING_DEPTH` levels the decoder returns an error at once, for every input,
 atom cache, configuration and fuel — the recursion never goes deeper than 257 levels -/
@@ -24,11 +27,8 @@ theorem C02_depth_guard (x : Ext) (cfg : DecCfg) (fuel depth : Nat) (bs : Bytes)
 /-- the guard value is the one in the source (regenerated on every run) -/
 theorem C02_depth_limit_is_sources : Gen.MAX_NESTING_DEPTH = MAX_NESTING_DEPTH := by decide
 
-/-- what is reserved for `count` announced elements never exceeds the bytes that are left, whatever the count field says -/
-theorem C02_alloc_bounded (count : Nat) (remaining : Bytes) : boundedCapacity count remaining ≤ remaining.length := by
-  unfold boundedCapacity; omega
-
-/-- and never under-reserves below what a valid input needs -/
+/-- `bounded_capacity` never under-reserves below what a valid input needs (that it never over-reserves is
+`C02_alloc_in_proportion` below, stated of the decoder and not of the helper) -/
 theorem C02_alloc_exact_when_fits (count : Nat) (remaining : Bytes) (h : count ≤ remaining.length) :
     boundedCapacity count remaining = count := by
   unfold boundedCapacity; omega
@@ -95,8 +95,7 @@ theorem C02_no_panic_after_inflate (x : Ext) (cfg : DecCfg) (fuel depth : Nat) (
                 · simp
               · simp
 
-/-- what is assumed of zlib: it reports no more input consumed than it was given (`total_in` of flate2) -/
-def InflateSane (x : Ext) : Prop := ∀ z out n, x.inflate z = some (out, n) → n ≤ z.length
+-- what is assumed of zlib (`InflateSane`, Lemmas/DecMeter.lean): it reports no more input consumed than it was given
 
 /-- **No input reaches a panic site of the term decoder**: every byte string, every nesting depth, every atom cache,
 either decoder configuration (owned / zero-copy), every fuel — the outcome is a term or an error -/
@@ -184,5 +183,256 @@ theorem C02_total_sequence (x : Ext) (hx : InflateSane x) (c : DistHeader.Cache)
     rcases hr with rfl | hr
     · exact C02_total_with_atom_cache x hx c m
     · exact ih _ r hr
+
+
+/-! ### The resource model: recursion depth, heap requests, slice sites — every parser, every entry point -/
+
+/-- **Stack.** Whatever the input, the cache, the configuration (owned / zero-copy: `depth` is `ctx.depth` there), the
+fuel and zlib's behaviour: `parse_term` is never entered with a depth beyond `MAX_NESTING_DEPTH + 1` — through tuples,
+lists and their tails, map keys and values, fun free variables, node names, LOCAL_EXT wrappers and compressed sections
+alike.  (Started below the limit; started at `d` above it, it does not go deeper than `d`.) -/
+theorem C02_depth_bounded (x : Ext) (hx : InflateSane x) (cfg : DecCfg) (fuel d : Nat) (bs : Bytes) :
+    (meter x cfg fuel d bs).maxDepth ≤ max d (MAX_NESTING_DEPTH + 1) :=
+  ((meter_ok x hx cfg fuel).1 d bs).depth
+
+/-- the meter counts (the driver evaluates it on every generated input; 300 nested tuples give 257 there) -/
+example : (meter Ext.none {} 5 0 [104, 1, 104, 1, 106]).maxDepth = 2 := by
+  simp [meter, meterN, dec, decN, rdU, rdN, boundedCapacity, Meter.add, Meter.enter, Meter.req, ownedOnlyTags, MAX_NESTING_DEPTH]
+
+/-- **Heap.** Every request whose size comes from the wire — `Vec::with_capacity` for tuples, lists, reference words and
+fun free variables, the `collect()` of STRING_EXT, `to_vec()` of binaries, bignum digits and LOCAL_EXT bytes, atom
+texts — asks for no more elements than bytes are left in the buffer being parsed, and that buffer is a piece of the
+input or of a compressed section the input really contains (whose inflated length the meter has recorded). -/
+theorem C02_alloc_in_proportion (x : Ext) (hx : InflateSane x) (cfg : DecCfg) (fuel d : Nat) (bs : Bytes) :
+    ∀ q ∈ (meter x cfg fuel d bs).reqs,
+      q.n ≤ q.rem ∧ (q.rem ≤ bs.length ∨ ∃ i ∈ (meter x cfg fuel d bs).infl, q.rem ≤ i.2) := by
+  intro q hq
+  have h := (meter_ok x hx cfg fuel).1 d bs
+  exact ⟨h.cap q hq, h.rem q hq⟩
+
+/-- a tuple that announces 200 elements in front of one byte reserves one -/
+example : (meter Ext.none {} 3 0 [104, 200, 106]).reqs = [⟨1, .term, 1⟩] := by
+  simp [meter, meterN, dec, rdU, rdN, boundedCapacity, Meter.add, Meter.enter, Meter.req, ownedOnlyTags, MAX_NESTING_DEPTH]
+
+/-- **Inflate.** A compressed section is never inflated past one byte more than it declares, and nothing is inflated
+for a declaration above `MAX_BINARY_SIZE` (that only an exact match is then parsed is `C02_inflate_bounded`). -/
+theorem C02_inflate_within_declared (x : Ext) (hx : InflateSane x) (cfg : DecCfg) (fuel d : Nat) (bs : Bytes) :
+    ∀ i ∈ (meter x cfg fuel d bs).infl, i.2 ≤ i.1 + 1 ∧ i.1 ≤ MAX_BINARY_SIZE :=
+  ((meter_ok x hx cfg fuel).1 d bs).inf
+
+example : (meter { inflate := fun _ => some ([106, 106, 106], 0), parseFloat := fun _ => none } {} 3 0 [80, 0, 0, 0, 1, 9]).infl
+    = [(1, 2)] := by
+  simp [meter, rdU, rdN, Meter.add, Meter.enter, Meter.inflated, ownedOnlyTags, MAX_NESTING_DEPTH, MAX_BINARY_SIZE]
+
+/-- **Slices and subtractions.** `&rest[consumed..]`, `start[..8 + nested_len]`, `input.len() - remaining.len()` and
+`copy_from_slice` always have their operands the right way round. -/
+theorem C02_slices_in_range (x : Ext) (hx : InflateSane x) (cfg : DecCfg) (fuel d : Nat) (bs : Bytes) :
+    ∀ c ∈ (meter x cfg fuel d bs).checks, c.1 ≤ c.2 :=
+  ((meter_ok x hx cfg fuel).1 d bs).chk
+
+example : (meter Ext.none {} 3 0 [121, 1, 2, 3, 4, 5, 6, 7, 8, 106]).checks = [(0, 1), (9, 9)] := by
+  simp [meter, dec, rdU, rdN, Meter.add, Meter.enter, Meter.check, Meter.req, ownedOnlyTags, MAX_NESTING_DEPTH]
+
+/-- without the assumption on zlib the slice after a compressed section is out of range (so the hypothesis is used) -/
+example : (meter { inflate := fun _ => some ([106], 7), parseFloat := fun _ => none } {} 3 0 [80, 0, 0, 0, 1, 9]).checks
+    = [(7, 1)] := by
+  simp [meter, dec, rdU, rdN, Meter.add, Meter.enter, Meter.inflated, Meter.check, ownedOnlyTags, MAX_NESTING_DEPTH, MAX_BINARY_SIZE]
+
+/-- the same four bounds for **every entry point** (`decode`, `decode_borrowed`, `decode_with_trailing`,
+`decode_raw_term`, `decode_with_cache`, `decode_with_atom_cache` from any cache, and the two fragment-header readers,
+which parse no term): depth, requests, inflate, slices -/
+theorem C02_entry_points_bounded (x : Ext) (hx : InflateSane x) (c : DistHeader.Cache) (bs : Bytes) (ep : EntryPoint) :
+    (ep.meter x c bs).maxDepth ≤ MAX_NESTING_DEPTH + 1 ∧
+    (∀ q ∈ (ep.meter x c bs).reqs, q.n ≤ q.rem ∧ (q.rem ≤ bs.length ∨ ∃ i ∈ (ep.meter x c bs).infl, q.rem ≤ i.2)) ∧
+    (∀ i ∈ (ep.meter x c bs).infl, i.2 ≤ i.1 + 1 ∧ i.1 ≤ MAX_BINARY_SIZE) ∧
+    (∀ k ∈ (ep.meter x c bs).checks, k.1 ≤ k.2) := by
+  have h := entry_ok x hx c bs ep
+  refine ⟨by have := h.depth; omega, fun q hq => ⟨h.cap q hq, h.rem q hq⟩, h.inf, h.chk⟩
+
+example : (EntryPoint.withAtomCache.meter Ext.none {} [131, 104, 1, 104, 0]).maxDepth = 1 := by
+  simp [EntryPoint.meter, EntryPoint.calls, Ext.none, meter, meterN, dec, decN, rdU, rdN, boundedCapacity, Meter.add, Meter.enter, Meter.req, ownedOnlyTags, MAX_NESTING_DEPTH]
+
+/-- **Arithmetic, 64-bit target.** No allocation overflows `isize::MAX` ("capacity overflow" panic of
+`Vec::with_capacity`) and no slice site fails, for any input a frame can carry (the length field of a frame is a `u32`),
+any element size up to a MiB. -/
+theorem C02_no_panic_site_64 (x : Ext) (hx : InflateSane x) (c : DistHeader.Cache) (bs : Bytes) (ep : EntryPoint)
+    (k : Target) (hk : k.isizeMax = 2 ^ 63 - 1) (hs : k.termSize ≤ 2 ^ 20) (hl : bs.length ≤ 2 ^ 32) :
+    (ep.meter x c bs).panics k = false := by
+  have h := entry_ok x hx c bs ep
+  simp only [Meter.panics, Bool.or_eq_false_iff, List.any_eq_false, decide_eq_true_eq]
+  refine ⟨fun q hq => ?_, fun c hc => by have := h.chk c hc; omega⟩
+  have h1 := h.cap q hq
+  have h2 : q.rem ≤ 2 ^ 32 := by
+    rcases h.rem q hq with h' | ⟨i, hi, h'⟩
+    · omega
+    · have := h.inf i hi; simp only [MAX_BINARY_SIZE] at this; omega
+  have h3 : q.elem.size k ≤ 2 ^ 20 := by cases q.elem <;> simp [Elem.size] <;> omega
+  have : q.n * q.elem.size k ≤ 2 ^ 32 * 2 ^ 20 := Nat.mul_le_mul (by omega) h3
+  simp only [Req.bytes, hk]
+  omega
+
+/-- **Arithmetic, 32-bit target.** There the same holds for inputs up to `isize::MAX / size_of::<OwnedTerm>()` bytes
+(26 MiB for an 80-byte term); beyond it the pre-allocation for fun free variables — the one count without a cap of its
+own — can ask for more than `isize::MAX` bytes (see notes/C02.md; the connection accepts frames of 64 MiB). -/
+theorem C02_no_panic_site_32 (x : Ext) (hx : InflateSane x) (c : DistHeader.Cache) (bs : Bytes) (ep : EntryPoint)
+    (k : Target) (hk : k.isizeMax = 2 ^ 31 - 1) (hs : 4 ≤ k.termSize) (hl : bs.length * k.termSize ≤ 2 ^ 31 - 1)
+    (hz : ∀ i ∈ (ep.meter x c bs).infl, i.2 * k.termSize ≤ 2 ^ 31 - 1) :
+    (ep.meter x c bs).panics k = false := by
+  have h := entry_ok x hx c bs ep
+  simp only [Meter.panics, Bool.or_eq_false_iff, List.any_eq_false, decide_eq_true_eq]
+  refine ⟨fun q hq => ?_, fun c hc => by have := h.chk c hc; omega⟩
+  have h1 := h.cap q hq
+  have h3 : q.elem.size k ≤ k.termSize := by cases q.elem <;> simp [Elem.size] <;> omega
+  have h2 : q.rem * k.termSize ≤ 2 ^ 31 - 1 := by
+    rcases h.rem q hq with h' | ⟨i, hi, h'⟩
+    · exact Nat.le_trans (Nat.mul_le_mul_right _ h') hl
+    · exact Nat.le_trans (Nat.mul_le_mul_right _ h') (hz i hi)
+  have : q.n * q.elem.size k ≤ q.rem * k.termSize := Nat.mul_le_mul h1 h3
+  simp only [Req.bytes, hk]
+  omega
+
+/-- on the 32-bit target a request of the size the fun parser may make behind 30 MB of input does overflow -/
+example : (Meter.req 30000000 .term 30000000).panics { termSize := 80, isizeMax := 2 ^ 31 - 1 } = true := by decide
+
+/-! ### Every entry point returns a term or an error -/
+
+theorem C02_total_raw_term (x : Ext) (hx : InflateSane x) (bs : Bytes) : decodeRaw x bs ≠ .error .panic := by
+  unfold decodeRaw
+  split
+  · rename_i e h; intro hp; simp only [Except.error.injEq] at hp; subst hp
+    exact C02_total x _ hx _ _ _ h
+  · simp
+  · simp
+
+theorem C02_total_with_trailing (x : Ext) (hx : InflateSane x) (bs : Bytes) : Recv.decodeTrailing x bs ≠ .error .panic := by
+  unfold Recv.decodeTrailing
+  split
+  · simp
+  · split
+    · simp
+    · exact C02_total x _ hx _ _ _
+
+theorem C02_total_fragment_headers (bs : Bytes) :
+    Recv.decodeFragmentHeader bs ≠ .error .panic ∧ Recv.decodeFragmentCont bs ≠ .error .panic := by
+  constructor
+  · unfold Recv.decodeFragmentHeader
+    split
+    · repeat' (split <;> try simp)
+      all_goals (rename_i e h; intro hp; (try simp only [Except.error.injEq] at hp); subst hp; exact rdU_np _ _ h)
+    · simp
+  · unfold Recv.decodeFragmentCont
+    split
+    · repeat' (split <;> try simp)
+      all_goals (rename_i e h; intro hp; (try simp only [Except.error.injEq] at hp); subst hp; exact rdU_np _ _ h)
+    · simp
+
+theorem C02_total_with_cache (x : Ext) (hx : InflateSane x) (bs : Bytes) : decodeWithCache x bs ≠ .error .panic := by
+  unfold decodeWithCache
+  cases bs with
+  | nil => simp
+  | cons v r =>
+    simp only
+    split
+    · simp
+    · cases r with
+      | nil => simp
+      | cons tag r1 =>
+        simp only
+        by_cases ht : (tag == 68) = true
+        · simp only [ht, ↓reduceIte]
+          cases hp : DistHeader.parseHeader {} r1 with
+          | mk c1 res =>
+            cases res with
+            | error e =>
+              simp only
+              have := DistHeader.parseHeader_np {} r1
+              rw [hp] at this
+              simpa using this
+            | ok body =>
+              simp only
+              split
+              · rename_i e h; intro hq; simp only [Except.error.injEq] at hq; subst hq
+                exact C02_total x _ hx _ _ _ h
+              · split
+                · simp
+                · split
+                  · rename_i e h; intro hq; simp only [Except.error.injEq] at hq; subst hq
+                    exact C02_total x _ hx _ _ _ h
+                  · simp
+        · simp only [ht, Bool.false_eq_true, ↓reduceIte]
+          split
+          · rename_i e h; intro hq; simp only [Except.error.injEq] at hq; subst hq
+            exact C02_total x _ hx _ _ _ h
+          · split
+            · simp
+            · split
+              · rename_i e h; intro hq; simp only [Except.error.injEq] at hq; subst hq
+                exact C02_total x _ hx _ _ _ h
+              · simp
+
+/-- **All eight public decoding functions, on every byte string, from every cache, on a 64-bit target: a term or an
+error** — neither a panic site of the parsers nor of the resource model (capacity overflow, slice out of range) is
+reachable -/
+theorem C02_total_every_entry_point (x : Ext) (hx : InflateSane x) (c : DistHeader.Cache) (bs : Bytes) (ep : EntryPoint)
+    (hl : bs.length ≤ 2 ^ 32) : ep.outcome Target.x64 x c bs ≠ .panic := by
+  unfold EntryPoint.outcome
+  rw [C02_no_panic_site_64 x hx c bs ep Target.x64 rfl (by decide) hl]
+  simp only [Bool.false_eq_true, ↓reduceIte]
+  cases ep with
+  | decode => exact outcome_of_ne_panic (C02_total_decode x _ hx bs)
+  | decodeBorrowed => exact outcome_of_ne_panic (C02_total_decode x _ hx bs)
+  | withTrailing => exact outcome_of_ne_panic (C02_total_with_trailing x hx bs)
+  | rawTerm => exact outcome_of_ne_panic (C02_total_raw_term x hx bs)
+  | withCache => exact outcome_of_ne_panic (C02_total_with_cache x hx bs)
+  | withAtomCache => exact outcome_of_ne_panic (C02_total_with_atom_cache x hx c bs)
+  | fragHeader => exact outcome_of_ne_panic (C02_total_fragment_headers bs).1
+  | fragCont => exact outcome_of_ne_panic (C02_total_fragment_headers bs).2
+
+example : EntryPoint.rawTerm.outcome Target.x64 Ext.none {} [104, 1, 106] = .ok := by
+  simp [EntryPoint.outcome, EntryPoint.meter, EntryPoint.calls, Meter.panics, Req.bytes, Elem.size, Target.x64, EntryPoint.run, decodeRaw, Ext.none, meter, meterN, dec, decN, rdU, rdN, boundedCapacity, Meter.add, Meter.enter, Meter.req, ownedOnlyTags, MAX_NESTING_DEPTH, Outcome.of]
+example : EntryPoint.fragCont.outcome Target.x64 Ext.none {} [131, 70, 0, 0] = .err := by
+  simp [EntryPoint.outcome, EntryPoint.meter, EntryPoint.calls, Meter.panics, EntryPoint.run, Recv.decodeFragmentCont, rdU, rdN, Outcome.of]
+
+/-! ### The model's shape is the source's (regenerated on every run by tools/gen_misc.py `gen_c02`) -/
+
+/-- every pre-allocation of decoder.rs goes through `bounded_capacity` (the atom table's is a constant), and
+`bounded_capacity` is the minimum of the count and the bytes left -/
+theorem C02_capacity_sites_are_sources :
+    Gen.C02_CAPACITY_SITES =
+      [("new", "ATOM_CACHE_SIZE"), ("parse_new_reference_ext", "bounded_capacity(lenasusize,input)"),
+       ("parse_small_tuple", "bounded_capacity(arityasusize,input)"), ("parse_large_tuple", "bounded_capacity(arityasusize,input)"),
+       ("parse_list", "bounded_capacity(lenasusize,input)"), ("parse_newer_reference", "bounded_capacity(lenasusize,input)"),
+       ("parse_new_fun_ext", "bounded_capacity(num_freeasusize,input)"),
+       ("parse_small_tuple_borrowed", "bounded_capacity(arityasusize,input)"),
+       ("parse_large_tuple_borrowed", "bounded_capacity(arityasusize,input)"),
+       ("parse_list_borrowed", "bounded_capacity(lenasusize,input)"),
+       ("parse_newer_reference_borrowed", "bounded_capacity(lenasusize,input)"),
+       ("parse_new_fun_ext_borrowed", "bounded_capacity(num_freeasusize,input)")] ∧
+    Gen.C02_BOUNDED_CAPACITY = "count.min(remaining_input.len())" := by decide
+
+/-- every recursive call of `parse_term` passes `depth + 1`, every top-level one `0`; the inflater is limited to the
+declared size plus one; each count with a cap is compared with it before anything is read -/
+theorem C02_recursion_shape_is_sources :
+    (Gen.C02_PARSE_TERM_DEPTHS.all fun p =>
+      if p.1 ∈ ["decode_raw_term", "decode_with_cache", "decode_with_atom_cache", "parse_versioned_term", "parse_dist_header_with_cache"]
+      then p.2 == "0" else p.2 == "depth+1") = true ∧
+    Gen.C02_PARSE_TERM_DEPTHS.length = 30 ∧
+    Gen.C02_INFLATE_TAKE = "uncompressed_sizeasu64+1" ∧
+    Gen.C02_SIZE_GUARDS.length = 20 := by decide
+
+/-- the slice / index sites of decoder.rs are the modelled ones (`checks` here, `flags[..]` in the header model), every
+`as usize` widens a value of at most 32 bits — lossless on 32- and 64-bit targets — except `total_in()`, whose result
+is range-checked by the slice that follows; the public decoders are the eight entry points -/
+theorem C02_sites_are_sources :
+    Gen.C02_INDEX_SITES = [("parse_compressed", "rest[consumed..]"), ("parse_local_ext", "start[..local_ext_bytes_len]"),
+      ("parse_dist_header_with_cache", "flags[flags_len-1]"), ("parse_dist_header_with_cache", "flags[flag_byte_index]"),
+      ("parse_dist_header_with_cache", "flags[flag_byte_index]")] ∧
+    (Gen.C02_USIZE_CASTS.all fun p => p.2 == "u8" || p.2 == "u16" || p.2 == "u32" || p == ("decoder.total_in()", "u64")) = true ∧
+    Gen.C02_PUBLIC_DECODERS = ["decode", "decode_with_trailing", "decode_raw_term", "decode_with_cache",
+      "decode_with_atom_cache", "decode_fragment_header", "decode_fragment_cont", "decode_borrowed"] ∧
+    Gen.C02_PUBLIC_DECODERS.length = EntryPoint.all.length := by decide
+
+/-- the frames a connection hands to the decoders are within the length the 64-bit theorem is stated for -/
+theorem C02_frame_limit_within : Gen.C02_CONNECTION_FRAME_LIMIT ≤ 2 ^ 32 ∧ Gen.C02_FRAMING_FRAME_LIMIT ≤ 2 ^ 32 := by decide
 
 end Edp.Props.C02
